@@ -88,6 +88,7 @@ class Gen:
         self.cmds = names or CMD_NAMES
         self.region = ['']
         self.cstack = []
+        self.mathdeep = False
 
     # -- emit helpers --------------------------------------------------
     def emit(self, text, tag, depth, closer=None, owner=None, own=False):
@@ -324,9 +325,26 @@ class Gen:
         for d in range(depth_target):
             if alternate:
                 kind = 'env' if d % 2 == 0 else 'cmd'
+            elif self.mathdeep:
+                kind = self.pick(['math', 'math', 'group', 'cmd', 'env', 'bracket'])
             else:
                 kind = self.pick(['env', 'cmd', 'group', 'cmd'])
-            if kind == 'env':
+            if kind == 'math':
+                # math switches of the same kind do not nest: never repeat the last one
+                opts = [m for m in (('$', '$'), ('\\(', '\\)'), ('\\[', '\\]'), ('$$', '$$'))
+                        if m[0] != getattr(self, '_lastmath', None)]
+                o, c = self.pick(opts)
+                self._lastmath = o
+                self.open_c()
+                self.emit(o, 'math', d, own=True)
+                closers.append((c, 'math', 'math', 1))
+            elif kind == 'bracket':
+                self.open_c()
+                self.emit('\\' + self.pick(self.cmds), 'cmd', d, own=True)
+                self.open_c()
+                self.emit('[', 'open', d, own=True)
+                closers.append((']', 'close', ']', 2))
+            elif kind == 'env':
                 name = self.pick(ENV_NAMES)
                 self.open_c()
                 self.emit('\\begin{%s}' % name, 'begin', d, own=True)
@@ -390,6 +408,7 @@ def generate(rng, profile=None, size=None, restricted=False):
         g.body(0, size)
     elif profile == 'deep':
         g = Gen(rng, PLAIN_KINDS, size, 45, ws=ws)
+        g.mathdeep = rng.random() < 0.5
         g.deep_narrow(rng.randrange(5, 41), False)
     elif profile == 'alternate':
         g = Gen(rng, PLAIN_KINDS, size, 45, ws=ws)
